@@ -291,9 +291,43 @@ static std::string showPath(const std::vector<int>& p)
     return s;
 }
 
-static void dfs(W& w, const Sys& s, std::vector<int>& path, int target)
+static std::vector<int> fullAlphabet()
 {
+    std::vector<int> a;
     for (int k = 0; k < (int) kOps.size(); ++k)
+        a.push_back(k);
+    return a;
+}
+
+// A small sub-alphabet for a DEEPER unmerged tree: state that the observable dump cannot show (a remembered index, a cached
+// lookup) is merged away by the BFS and needs longer histories than the full tree reaches, e.g. update, update, remove (which
+// moves an entry), append, update. 13 operations: cm status of each device, one interface status of each device, a second
+// interface and a second message variant for the first device, every removeDevice, one removeInterface, clear.
+static std::vector<int> sharpAlphabet()
+{
+    std::vector<int> a;
+    for (int k = 0; k < (int) kOps.size(); ++k)
+    {
+        const Op& o = kOps[k];
+        bool in = false;
+        switch (o.kind)
+        {
+            case 'C': in = o.v == 0; break;
+            case 'I': in = (o.i == 0 && o.v == 0) || (o.d == 0 && (o.i == 0 || o.v == 0)); break;
+            case 'R': in = true; break;
+            case 'r': in = o.d == 0 && o.i == 0; break;
+            case 'X': in = true; break;
+            default: break;
+        }
+        if (in)
+            a.push_back(k);
+    }
+    return a;
+}
+
+static void dfs(W& w, const Sys& s, std::vector<int>& path, int target, const std::vector<int>& alpha)
+{
+    for (int k : alpha)
     {
         path.push_back(k);
         if ((int) path.size() == target)
@@ -314,7 +348,7 @@ static void dfs(W& w, const Sys& s, std::vector<int>& path, int target)
         {
             Sys n = s;
             apply(n, kOps[k]);
-            dfs(w, n, path, target);
+            dfs(w, n, path, target, alpha);
         }
         path.pop_back();
     }
@@ -455,6 +489,7 @@ int main(int argc, char** argv)
     }
     const int treeDepth = thorough ? 5 : 4;
     const int nops = (int) kOps.size();
+    const std::vector<int> full = fullAlphabet();
     for (int d = 1; d <= treeDepth; ++d)
     {
         const int plen = std::min(2, d - 1);
@@ -468,10 +503,31 @@ int main(int argc, char** argv)
                 path = {(int) o};
             for (int k : path)
                 apply(s, kOps[k]);
-            dfs(w, s, path, d);
+            dfs(w, s, path, d, full);
         });
         if (run.out_of_time())
             break;
+    }
+    // deeper unmerged tree over the sharp sub-alphabet (lengths above the full tree's depth only)
+    {
+        const std::vector<int> sharp = sharpAlphabet();
+        const int ns = (int) sharp.size();
+        const int sharpDepth = thorough ? 8 : 6;
+        run.extra.push_back({"sharp_alphabet_size", mc::Json::num(ns)});
+        run.extra.push_back({"sharp_tree_depth", mc::Json::num(sharpDepth)});
+        for (int d = treeDepth + 1; d <= sharpDepth; ++d)
+        {
+            uint64_t nout = (uint64_t) ns * ns * ns;
+            run.round(fmt("unmerged tree over the %d-operation sharp sub-alphabet: all sequences of length %d", ns, d), nout, [&, d](W& w, uint64_t o) {
+                Sys s;
+                std::vector<int> path = {sharp[o / ((uint64_t) ns * ns)], sharp[(o / ns) % ns], sharp[o % ns]};
+                for (int k : path)
+                    apply(s, kOps[k]);
+                dfs(w, s, path, d, sharp);
+            });
+            if (run.out_of_time())
+                break;
+        }
     }
     runBfs(run, 16);   // runs until the frontier is empty: every reachable state of the alphabet is visited
     return run.finish();
